@@ -84,6 +84,38 @@ def year_start_oracle(cid: str, y: int) -> int:
     return ch[y]
 
 
+_MONTHS: dict[tuple[str, int], list] = {}
+
+
+def month_table_oracle(cid: str, y: int) -> list:
+    """[(month, day number of its first day, length)] for every month of the year.
+
+    Reference calendars: independent arithmetic. Table-driven calendars (no independent reference): the answer the
+    library gave the first time this process asked (so later answers must not depend on what was asked in between);
+    the stress and fresh-process comparisons cover the first answer itself.
+    """
+    ref = rc.reference_for(cid)
+    if ref is not None and not (cid == "Persian Arithmetic" and y < 475):
+        return [(m, ref.to_days(y, m, 1), ref.days_in_month(y, m)) for m in range(1, ref.months_in_year(y) + 1)]
+    key = (cid, y)
+    if key not in _MONTHS:
+        cal = pyo.cal(cid)
+        out = []
+        for m in range(1, cal.get_months_in_year(y) + 1):
+            try:
+                out.append((m, _month_start_query(cid, y, m), cal.get_days_in_month(y, m)))
+            except (ValueError, OverflowError):
+                continue
+        _MONTHS[key] = out
+    return _MONTHS[key]
+
+
+def _month_start_query(cid: str, y: int, m: int) -> int:
+    from pyoda_time import LocalDate
+
+    return LocalDate(y, m, 1, pyo.cal(cid))._days_since_epoch
+
+
 def year_start_query(cid: str, y: int) -> int:
     from pyoda_time import LocalDate
 
@@ -119,6 +151,16 @@ def _k_years(c) -> CaseInfo:
         if y < cal.max_year:
             exp_len = year_start_oracle(cid, y + 1) - exp
             need(cal.get_days_in_year(y) == exp_len, f"year-length/{cid}", f"year {y}: {cal.get_days_in_year(y)} != {exp_len}")
+        # the month structure of the year (some calculators cache month lengths next to the year start)
+        for m, mstart, mlen in month_table_oracle(cid, y):
+            if mstart + mlen - 1 > cal._max_days or mstart < cal._min_days:
+                continue
+            got_len = cal.get_days_in_month(y, m)
+            need(got_len == mlen, f"month-length/{cid}", f"year {y} month {m} after history {qs[:8]}...: {got_len} != {mlen}")
+            got_start = _month_start_query(cid, y, m)
+            need(got_start == mstart, f"month-start/{cid}", f"year {y} month {m} after history {qs[:8]}...: day number {got_start} != {mstart}")
+            d = pyo.date_from_day(cid, mstart + mlen - 1)
+            need((d.year, d.month, d.day) == (y, m, mlen), f"month-end/{cid}", f"day {mstart + mlen - 1} -> {(d.year, d.month, d.day)} != {(y, m, mlen)}")
     return CaseInfo(nt, "years")
 
 
@@ -468,7 +510,7 @@ def task_hist(ctx: Ctx, shard: int, n: int) -> None:
         return out
 
     year_hist = st.lists(
-        st.tuples(st.sampled_from(pyo.cal_ids()), st.integers(-9998, 9999), st.lists(st.tuples(st.integers(-3, 3), st.integers(-1, 1)), min_size=2, max_size=6)).map(yq),
+        st.tuples(st.sampled_from(pyo.cal_ids()), st.one_of(st.integers(-9998, 9999), st.builds(lambda k, d: k * 1024 + d, st.integers(0, 9), st.integers(-2, 1))), st.lists(st.tuples(st.integers(-3, 3), st.integers(-1, 1)), min_size=2, max_size=6)).map(yq),
         min_size=1,
         max_size=5,
     ).map(lambda ll: [q for l_ in ll for q in l_])
